@@ -242,7 +242,10 @@ def units(tier):
     out = []
     for i in range(0, len(insts), 120):
         out.append(Unit('C05_ptr_arith_%d' % (i // 120), insts[i:i + 120]))
-    return out
+    # every 'or the operation aborts' clause rests on the body of detail::dynamic_check (a contract leaf in the instances above):
+    # it is verified here in the default and in the NDEBUG build configuration (contract of C06)
+    from . import C06
+    return (out) + C06.dynamic_check_units(tier, PROP, 'c05')
 
 
 ASSUMPTIONS = [
